@@ -5,7 +5,7 @@ cd /verif || exit 2
 if ! git -C /repo diff --quiet; then echo "/repo has uncommitted changes - refusing"; exit 2; fi
 out=out/seed_regress.log; : > $out
 rc=0
-for d in seeded/*/; do
+for d in seeded/C*/; do
   id=$(basename $d)
   prop=$(python3 -c "import json,sys; print(json.load(open('$d/meta.json'))['breaks_property'])")
   if ! git -C /repo apply --check /verif/$d/patch.diff 2>/dev/null; then echo "$id $prop PATCH-DOES-NOT-APPLY" | tee -a $out; continue; fi
